@@ -1587,3 +1587,52 @@ def rule_alias(rep, model, mod, cls, alias, target, entry=None, rule="R-FORWARD"
         rep.check(rule, f"alias {alias} forwards everything it accepts to {target}", ok, where=fn.loc(c), construct=norm_text(c)[:80], entry=entry,
                   msg=f"the alias accepts {missing or ['*args/**kwargs']} but does not hand {'them' if len(missing) != 1 else 'it'} on: the target's "
                       f"default is used whatever the caller passes (e.g. relative=False is silently ignored)")
+
+
+def rule_full_block_count(rep, res, entry=None, rule="R-COVER"):
+    """a function that handles the remainder `n % k` separately iterates over exactly ⌊n / k⌋ full blocks: a trip count obtained by ROUNDING
+    the quotient (round / rint / around / ceil of n / k) visits one block too many whenever the remainder is at least half a block —
+    the last 'full' block then reads past the end (a short slice) and the remainder is handled a second time.  Decided on the syntax of
+    every reached function that computes a remainder."""
+    import ast as _ast
+    entry = entry or res.entry
+    fns = {ev.d["callee"] for ev in res.events("call")} | {res.fn}
+    n_inst = 0
+    for fn in sorted(fns, key=lambda f: f.qual):
+        mods = [(norm_text(n.left), norm_text(n.right)) for n in _ast.walk(fn.node) if isinstance(n, _ast.BinOp) and isinstance(n.op, _ast.Mod)
+                and not isinstance(n.left, _ast.Constant)]
+        if not mods:
+            continue
+        local = {}
+        for n in _ast.walk(fn.node):
+            if isinstance(n, _ast.Assign) and len(n.targets) == 1 and isinstance(n.targets[0], _ast.Name):
+                local.setdefault(n.targets[0].id, []).append(n.value)
+        def expand(node, depth=0):
+            out = [node]
+            if depth < 2:
+                for m in _ast.walk(node):
+                    if isinstance(m, _ast.Name) and len(local.get(m.id, [])) == 1:
+                        out += expand(local[m.id][0], depth + 1)
+            return out
+        for c in _ast.walk(fn.node):
+            if not (isinstance(c, _ast.Call) and isinstance(c.func, _ast.Name) and c.func.id == "range" and len(c.args) == 1):
+                continue
+            for ex in expand(c.args[0]):
+                for q in _ast.walk(ex):
+                    if not (isinstance(q, _ast.BinOp) and isinstance(q.op, (_ast.Div, _ast.FloorDiv))
+                            and (norm_text(q.left), norm_text(q.right)) in mods):
+                        continue
+                    n_inst += 1
+                    wrappers = {(w.func.attr if isinstance(w.func, _ast.Attribute) else getattr(w.func, "id", "")) for w in _ast.walk(ex)
+                                if isinstance(w, _ast.Call) and any(x is q for x in _ast.walk(w))}
+                    bad = wrappers & {"round", "rint", "around", "round_", "ceil"}
+                    if isinstance(q.op, _ast.Div) and bad:
+                        rep.violated(rule, "the loop over full blocks runs ⌊n / k⌋ times", where=fn.loc(c), construct=norm_text(ex)[:80], entry=entry,
+                                     config=res.config,
+                                     msg=f"the number of full blocks is `{norm_text(ex)[:70]}` ({'/'.join(sorted(bad))} of the quotient) while the remainder "
+                                         f"`{mods[0][0]} % {mods[0][1]}` is handled separately: when the remainder is at least half a block one block too "
+                                         f"many is taken, reading past the last sample")
+                    else:
+                        rep.holds(rule, "the loop over full blocks runs ⌊n / k⌋ times", where=fn.loc(c), construct=norm_text(ex)[:80], entry=entry,
+                                  config=res.config)
+    return n_inst
